@@ -1151,7 +1151,7 @@ formatLoop:
 				// Fast path for common case of ascii lower case simple verbs
 				// without precision or width or argument indices.
 				if 'a' <= c && c <= 'z' && argNum < len(a) {
-					if c == 'v' {
+					if c == 'v' || c == 'w' {
 						// Go syntax
 						p.fmt.sharpV = p.fmt.sharp
 						p.fmt.sharp = false
@@ -1246,7 +1246,8 @@ formatLoop:
 			p.badArgNum(verb)
 		case argNum >= len(a): // No argument left over to print for the current verb.
 			p.missingArg(verb)
-		case verb == 'v':
+		case verb == 'v' || verb == 'w':
+			// %w takes the flags like %v, as in fmt since Go 1.20.
 			// Go syntax
 			p.fmt.sharpV = p.fmt.sharp
 			p.fmt.sharp = false
